@@ -7,7 +7,7 @@ import CifModel.Model.StoreStep
   tables as they are (they ARE the documented model of the container tree: ids, parent, code in both spellings) and replaces the
   three tables loop / loop_item / item_value, the row counters, the transactions and the savepoints by what the documentation talks
   about: a loop is a category, a list of items (normalised name, spelling) and a list of packets, each packet one value per item.
-  The tree `abs` of Model/StoreStep is a projection of `absS` (`absS_tree`, Lemmas/StoreSpecRefine).
+  The tree `abs` of Model/StoreStep is a projection of `absS` (`AState.tree`; `absS_tree`, Lemmas/StoreSpecWorld).
 
   `specStep`-functions below say what a call does to an `AState`; Lemmas/StoreSpecRefine proves, op by op, that the model's call
   commutes with `absS` and returns the same code, for a `Good` store and a valid handle (what `WOk` / `inContract` give).
@@ -50,6 +50,25 @@ def onLoop (a : AState) (cid num : Nat) (f : ALoop → ALoop) : AState :=
   { a with loops := a.loops.map (fun y => if y.cid == cid && y.num == num then f y else y) }
 
 end AState
+
+/-- a loop of the identity model as the tree model shows it: category, item names as spelled, packets -/
+def ALoop.toLoop (y : ALoop) : Loop := { category := y.category, names := y.items.map (·.2), packets := y.packets }
+
+mutual
+  /-- the container tree below `cid` (fuel bounds the nesting depth, as in `absContainer`) -/
+  def AState.treeContainer (a : AState) : Nat → Nat → Str → Container
+    | 0, _, code => .mk code [] []
+    | fuel + 1, cid, code =>
+      .mk code (AState.treeFrames a fuel (a.frames.filter (fun f => f.parent == cid)))
+               ((a.loops.filter (fun y => y.cid == cid)).map ALoop.toLoop)
+  def AState.treeFrames (a : AState) : Nat → List FrameRow → List Container
+    | _, [] => []
+    | fuel, f :: fs => AState.treeContainer a fuel f.cid f.nameOrig :: AState.treeFrames a fuel fs
+end
+
+/-- the tree-shaped documented model (`Cif` of Model/Types: what a dump through the public query API shows) as a projection of
+    the identity model: `(absS d).tree = abs d` (`absS_tree`, Lemmas/StoreSpecWorld) -/
+def AState.tree (a : AState) : Cif := a.blocks.map (fun b => a.treeContainer (a.frames.length + 1) b.cid b.nameOrig)
 
 def ALoop.hasItem (x : ALoop) (k : Str) : Bool := x.items.any (fun it => it.1 == k)
 
